@@ -16,6 +16,7 @@ import (
 )
 
 type concPlan struct {
+	Duo     int        `json:"duo"` // rounds with two mutator goroutines on disjoint services
 	Rounds  int        `json:"rounds"`
 	Servers int        `json:"servers"`
 	Ops     int        `json:"ops"`
@@ -273,6 +274,129 @@ func norm404(proj string) string {
 	return proj
 }
 
+// two mutators on disjoint services: no window rule (no total order of states is known), but
+// nothing may be lost: when both are done the container must answer like a fresh container
+// holding what the two histories leave behind
+func runConcDuo(tw *traceWriter, r *rand.Rand, round, servers int) {
+	router := pick(r, []string{"curly", "jsr311"})
+	init := concState{services: []*regService{{root: "/a", routes: []string{"", "/x", "/{p}"}}, {root: "/b", routes: []string{"", "/x", "/{p}"}}}}
+	c := newRegContainer(router)
+	var liveMu sync.Mutex
+	live := map[string]*restful.WebService{}
+	for _, x := range init.services {
+		ws := x.build()
+		live[x.root] = ws
+		c.Add(ws)
+	}
+	mkOps := func(roots []string, own string, n int) [][]string {
+		ops := [][]string{}
+		present := map[string]bool{}
+		dyn := false
+		for len(ops) < n {
+			root := pick(r, roots)
+			switch r.Intn(3) {
+			case 0, 1:
+				if present[root] {
+					ops = append(ops, []string{"remove", root})
+				} else {
+					ops = append(ops, []string{"add", root})
+				}
+				present[root] = !present[root]
+			case 2:
+				if !dyn {
+					ops = append(ops, []string{"route", own})
+				} else {
+					ops = append(ops, []string{"unroute", own, "/dyn"})
+				}
+				dyn = !dyn
+			}
+		}
+		return ops
+	}
+	opsA := mkOps([]string{"/c/{x}", "/d"}, "/a", 10+r.Intn(10))
+	opsB := mkOps([]string{"/e", "/f/{y}"}, "/b", 10+r.Intn(10))
+	final := init
+	for _, op := range opsA {
+		final = applyConcOp(final, op)
+	}
+	for _, op := range opsB {
+		final = applyConcOp(final, op)
+	}
+	tw.emit(map[string]interface{}{"e": "chist", "round": round, "router": router, "ops": append(append([][]string{}, opsA...), opsB...), "servers": servers, "duo": true})
+	var done int32
+	var wg, mw sync.WaitGroup
+	for g := 0; g < servers; g++ {
+		wg.Add(1)
+		go func(g int) {
+			defer wg.Done()
+			rr := rand.New(rand.NewSource(int64(round*100 + g)))
+			for atomic.LoadInt32(&done) == 0 {
+				regProbe(c, pick(rr, []string{"S", "D"}), pick(rr, append(concProbes, "/c/1", "/e", "/f/2/x", "/d")))
+			}
+		}(g)
+	}
+	panics := make([]string, 2)
+	for mi, ops := range [][][]string{opsA, opsB} {
+		mw.Add(1)
+		go func(mi int, ops [][]string) {
+			defer mw.Done()
+			for _, op := range ops {
+				pv := safely(func() {
+					switch op[0] {
+					case "add":
+						ws := (&regService{root: op[1], routes: []string{"", "/x", "/{p}"}}).build()
+						liveMu.Lock()
+						live[op[1]] = ws
+						liveMu.Unlock()
+						c.Add(ws)
+					case "remove":
+						liveMu.Lock()
+						ws := live[op[1]]
+						delete(live, op[1])
+						liveMu.Unlock()
+						c.Remove(ws)
+					case "route":
+						liveMu.Lock()
+						ws := live[op[1]]
+						liveMu.Unlock()
+						addRegRoute(ws, op[1], "/dyn")
+					case "unroute":
+						liveMu.Lock()
+						ws := live[op[1]]
+						liveMu.Unlock()
+						ws.RemoveRoute(trimRightSlash(op[1])+op[2], "GET")
+					}
+				})
+				if pv != "" {
+					panics[mi] = pv
+					return
+				}
+			}
+		}(mi, ops)
+	}
+	fin := make(chan bool)
+	go func() { mw.Wait(); atomic.StoreInt32(&done, 1); wg.Wait(); close(fin) }()
+	select {
+	case <-fin:
+	case <-time.After(30 * time.Second):
+		tw.emit(map[string]interface{}{"e": "cstuck", "round": round})
+		return
+	}
+	for _, pv := range panics {
+		if pv != "" {
+			tw.emit(map[string]interface{}{"e": "cpanic", "round": round, "pv": pv})
+		}
+	}
+	fc := final.fresh(router)
+	for _, p := range append(append([]string{}, concProbes...), "/c/1", "/c/1/x", "/e", "/e/x", "/f/2", "/f/2/x", "/d", "/a/dyn", "/b/dyn") {
+		for _, en := range []string{"S", "D"} {
+			got, _ := regProbe(c, en, p)
+			want, _ := regProbe(fc, en, p)
+			tw.emit(map[string]interface{}{"e": "cfinal", "key": en + p, "obs": norm404(got), "want": norm404(want)})
+		}
+	}
+}
+
 func trimRightSlash(s string) string {
 	for len(s) > 0 && s[len(s)-1] == '/' {
 		s = s[:len(s)-1]
@@ -340,6 +464,9 @@ func runConc(planPath, outPath string, seed int64) {
 	}
 	for i := 0; i < p.Rounds; i++ {
 		runConcRound(tw, r, i, p.Servers, p.Ops)
+	}
+	for i := 0; i < p.Duo; i++ {
+		runConcDuo(tw, r, 1000+i, p.Servers)
 	}
 	_ = fmt.Sprint
 }
